@@ -44,7 +44,7 @@ package engine
 //@ iface Matcher.Match(got, d, r) (d1, ok)
 //@   requires d != nil
 //@   ensures [C01,C04,C05] decides-instance: ok == MatchOK(self, got, dmap(d), r)
-//@   ensures [C01,C02,C04] binds: ok ==> dmap(d1) == MatchD(self, got, dmap(d), r)
+//@   ensures [C01,C02,C03,C04] binds: ok ==> dmap(d1) == MatchD(self, got, dmap(d), r)
 //@   ensures [C02] never-rebinds: ok ==> keepsBindings(dmap(d), dmap(d1))
 //@   ensures d1 != nil
 //@   assigns nothing
@@ -328,7 +328,7 @@ package engine
 //@   requires cursor != nil && d != nil && m.NodeMatcher != nil
 //@   invariant forall i int {matches[i]} :: 0 <= i && i < len(matches) ==> matches[i] != nil && allocated(matches[i]) && matches[i].data != nil
 //@   assigns matches, elems(matches)
-//@   ensures [C01] never-prunes: curNode(cursor) != nil ==> res
+//@   ensures [C01,C03] never-prunes: curNode(cursor) != nil ==> res
 //@   ensures [C01] records-exactly-the-instances: curNode(cursor) != nil ==> len(matches) == old(len(matches)) + ite(MatchOK(m.NodeMatcher, rvOf(curNode(cursor)), dmap(d), nodeRegionOf(curNode(cursor))), 1, 0)
 //@   ensures [C01] nil-node-records-nothing: curNode(cursor) == nil ==> len(matches) == old(len(matches))
 //@   ensures [C01] earlier-matches-kept: forall i int {matches[i]} :: 0 <= i && i < old(len(matches)) ==> matches[i] == old(matches[i])
@@ -778,10 +778,10 @@ package engine
 //@   loop 0
 //@     invariant skipped.arr == 0 || fresh(skipped.arr)
 //@   loop 1
-//@     invariant [C05] result-list-is-built-in-fresh-memory: items.arr == 0 || fresh(items.arr)
+//@     invariant [C04,C05] result-list-is-built-in-fresh-memory: items.arr == 0 || fresh(items.arr)
 //@     invariant len(skipped) >= 0
 //@   loop 2
-//@     invariant [C05] result-list-is-built-in-fresh-memory: items.arr == 0 || fresh(items.arr)
+//@     invariant [C04,C05] result-list-is-built-in-fresh-memory: items.arr == 0 || fresh(items.arr)
 //@   loop 3
 //@     invariant true
 
